@@ -217,11 +217,24 @@ def run(ctx):
     from ..report import Ctx as _LCtx
     from . import c08 as _lsrc
     _sub = _LCtx('C08', 'quick', ctx.src, 0)
-    _lsrc.run(_sub)
+    from ..report import run_lifted as _run_lifted
+    _run_lifted(ctx, _lsrc, _sub)
     _lifted = [f for f in _sub.findings if f.rule == 'C08.R3' and '_process_destroy' in f.key]
     for f in _lifted:
         ctx.fail('C07.R7', f.key, f.site, f.message)
     if not _lifted:
         ctx.ok('C07.R7', 'kmip/services/server/engine.py', 'no raise after the delete in Destroy')
+    # ---------------- C07.R8 (lifted from C10)
+    ctx.rule('C07.R8', "requests are executed one at a time under the engine lock (lifted from C10.R1/R2): the ID placeholder and the data session are engine fields, so an unsynchronised second request between Create and Destroy-by-placeholder would make a Destroy delete another client's object")
+    from ..report import Ctx as _LCtx_C07_R8
+    from . import c10 as _lsrc_C07_R8
+    _sub_C07_R8 = _LCtx_C07_R8('C10', 'quick', ctx.src, 0)
+    from ..report import run_lifted as _run_lifted
+    _run_lifted(ctx, _lsrc_C07_R8, _sub_C07_R8)
+    _lifted_C07_R8 = [f for f in _sub_C07_R8.findings if f.rule in ('C10.R1', 'C10.R2')]
+    for f in _lifted_C07_R8:
+        ctx.fail('C07.R8', f.key, f.site, f.message)
+    if not _lifted_C07_R8:
+        ctx.ok('C07.R8', 'lifted from C10', 'process_request is synchronised by a wrapper that holds the lock around exactly one call and is what the decorator returns')
     ctx.not_decided += ['SQLite AUTOINCREMENT never reusing a rowid, also across restarts (trusted)', 'identifier behaviour when the process is killed between add() and commit() (C09)']
     ctx.assumptions += ['joined-table inheritance deletes/owns subclass rows through the base row (passive deletes / foreign keys)']
